@@ -75,6 +75,57 @@ pub fn key(i: KeyId) -> std::rc::Rc<KeyMat> {
     })
 }
 
+fn crc32(data: &[u8]) -> u32 {
+    let mut crc: u32 = 0xffff_ffff;
+    for b in data {
+        crc ^= *b as u32;
+        for _ in 0..8 {
+            crc = if crc & 1 != 0 { (crc >> 1) ^ 0xedb8_8320 } else { crc >> 1 };
+        }
+    }
+    !crc
+}
+
+/// A Byron address of the Daedalus kind: it carries an (encrypted) derivation path of `path_len`
+/// bytes in its attributes, which a bootstrap witness repeats. Written by the harness's own CBOR
+/// writer; the address root is not verifiable by a decoder, so any 28 bytes do.
+pub fn byron_with_path(i: KeyId, magic: u32, path_len: u8) -> std::rc::Rc<ByronMat> {
+    BYRON.with(|c| {
+        let kk = (i + 1000 * path_len as u16, magic);
+        if let Some(k) = c.borrow().get(&kk) {
+            return k.clone();
+        }
+        let base = byron(i, magic);
+        let xprv = csl::Bip32PrivateKey::from_bytes(&base.xprv.as_bytes()).unwrap();
+        let mut inner = vec![];
+        crate::cbor::w_array(&mut inner, 3);
+        crate::cbor::w_bytes(&mut inner, &blake2b224(&[i as u8, path_len, 0xda]));
+        let mut path = vec![];
+        crate::cbor::w_bytes(&mut path, &(0..path_len).map(|x| x.wrapping_mul(7).wrapping_add(i as u8)).collect::<Vec<u8>>());
+        let mainnet = magic == 764824073;
+        crate::cbor::w_map(&mut inner, if mainnet { 1 } else { 2 });
+        crate::cbor::w_uint(&mut inner, 1);
+        crate::cbor::w_bytes(&mut inner, &path);
+        if !mainnet {
+            let mut m = vec![];
+            crate::cbor::w_uint(&mut m, magic as u64);
+            crate::cbor::w_uint(&mut inner, 2);
+            crate::cbor::w_bytes(&mut inner, &m);
+        }
+        crate::cbor::w_uint(&mut inner, 0);
+        let mut outer = vec![];
+        crate::cbor::w_array(&mut outer, 2);
+        crate::cbor::w_tag(&mut outer, 24);
+        crate::cbor::w_bytes(&mut outer, &inner);
+        crate::cbor::w_uint(&mut outer, crc32(&inner) as u64);
+        let addr = csl::ByronAddress::from_bytes(outer).expect("harness-written byron address");
+        let addr_bytes = addr.to_bytes();
+        let k = std::rc::Rc::new(ByronMat { xprv, addr, addr_bytes });
+        c.borrow_mut().insert(kk, k.clone());
+        k
+    })
+}
+
 pub fn byron(i: KeyId, magic: u32) -> std::rc::Rc<ByronMat> {
     BYRON.with(|c| {
         let mut m = c.borrow_mut();
@@ -209,6 +260,8 @@ pub enum Pd {
     List(Vec<Pd>),
     Constr(u64, Vec<Pd>),
     Map(Vec<(Pd, Pd)>),
+    /// the same value in the encoding of a foreign peer (seeded variant); enters the library through from_bytes
+    Alt(Box<Pd>, u8),
 }
 
 impl Pd {
@@ -230,6 +283,24 @@ impl Pd {
                     l.add(&x.to_csl());
                 }
                 csl::PlutusData::new_constr_plutus_data(&csl::ConstrPlutusData::new(&csl::BigNum::from(*alt), &l))
+            }
+            Pd::Alt(inner, variant) => {
+                let base = inner.to_csl();
+                let bytes = base.to_bytes();
+                if let Ok(n) = crate::cbor::parse(&bytes) {
+                    for attempt in 0..6u64 {
+                        let mut r = crate::prng::Rng::new(*variant as u64 * 31 + attempt);
+                        let mut f = crate::cbor::Foreign::new(&mut r, 250, 400, 300, 0);
+                        let mut out = vec![];
+                        f.emit(&n, &mut out);
+                        if out != bytes {
+                            if let Ok(d) = csl::PlutusData::from_bytes(out) {
+                                return d;
+                            }
+                        }
+                    }
+                }
+                base
             }
             Pd::Map(v) => {
                 let mut m = csl::PlutusMap::new();
@@ -259,13 +330,15 @@ pub enum AddrSpec {
     Ptr(Cred, u64, u64, u64),
     Reward(Cred),
     Byron(KeyId),
+    /// Daedalus-kind Byron address with a derivation-path attribute of the given length
+    ByronPath(KeyId, u8),
 }
 
 impl AddrSpec {
     pub fn pay_cred(&self) -> Option<&Cred> {
         match self {
             AddrSpec::Base(p, _) | AddrSpec::Ent(p) | AddrSpec::Ptr(p, ..) | AddrSpec::Reward(p) => Some(p),
-            AddrSpec::Byron(_) => None,
+            AddrSpec::Byron(_) | AddrSpec::ByronPath(..) => None,
         }
     }
 }
@@ -360,6 +433,7 @@ impl World {
             .to_address(),
             AddrSpec::Reward(p) => csl::RewardAddress::new(self.network, &self.cred(p)).to_address(),
             AddrSpec::Byron(k) => byron(*k, self.magic).addr.to_address(),
+            AddrSpec::ByronPath(k, l) => byron_with_path(*k, self.magic, *l).addr.to_address(),
         }
     }
     pub fn reward_address(&self, c: &Cred) -> csl::RewardAddress {
